@@ -233,10 +233,12 @@ def run_ext(ctx):
         "observations, never as violations")
     # 5. binding self-test: corrupted good traces must be rejected with the expected predicate
     if not judged:
-        selftest(ctx, events, set(f["line"] for f in fails))
+        selftest(ctx, events, set(f["line"] for f in fails), strict=not new)
 
 
-def selftest(ctx, events, bad_lines):
+def selftest(ctx, events, bad_lines, strict=True):
+    """strict: every kind of corruption must find a place in the recorded trace; a trace full of (new) observations has few
+    clean histories left - then the corruptions that still find a place are tried (at least the judged ones)."""
     ev = events[:9000]
     starts, s = [], 0
     for i, e in enumerate(ev):
@@ -280,7 +282,7 @@ def selftest(ctx, events, bad_lines):
             done["silent"] = (i, dict(e, st=[dict(x, sent=False) for x in e["st"]]), "SendsWhenQuorum")
     need = ("digest", "stored", "twice", "vub", "nonce", "fee", "agree", "wit", "refused", "silent")
     missing = [n for n in need if n not in done]
-    if missing:
+    if missing and (strict or "digest" not in done):
         raise vlib.Inconclusive("oracle service self-test could not find places to corrupt the trace (%s)" % missing)
     segs, expect_at = [], {}
     for name, (i, bad, expect) in done.items():
